@@ -97,6 +97,7 @@ type FuncVC struct {
 	opaque     map[string]*opaqueInfo
 	tables     map[string]*tableInfo
 	lemmaName  string
+	mods       map[string]*modSet // nil: writes are not checked (no contract or `modifies *`)
 	inlineDepth int
 	entryState *State
 	tier string
@@ -130,6 +131,7 @@ type Frame struct {
 	loopHeads map[int]*State
 	loopEntries map[int]*State
 	callOrd map[ssa.Instruction]int
+	curReach Term
 	results []Val // set while checking ensures
 	// current position for diagnostics
 	curInstr ssa.Instruction
@@ -1176,4 +1178,55 @@ func rpo(fn *ssa.Function) []*ssa.BasicBlock {
 		post[i], post[j] = post[j], post[i]
 	}
 	return post
+}
+
+
+// permitted: may the function write heap component `key` at reference ref?
+// Yes if the object was allocated during the call or the modifies clause lists it.
+func (vc *FuncVC) permitted(key string, ref Term) Term {
+	alts := []Term{app(SBool, ">=", app(SInt, "refroot", ref), vc.entryState.Alloc)}
+	if strings.HasPrefix(key, "M|") {
+		// the backing store of a nil slice: nothing is there to be written
+		alts = append(alts, mkEq(ref, intLit64(0)))
+	}
+	if m := vc.mods[key]; m != nil {
+		if m.all {
+			return tTrue
+		}
+		for _, r := range m.refs {
+			alts = append(alts, mkEq(ref, r))
+		}
+	}
+	return mkOr(alts...)
+}
+
+// checkWrite emits the write-permission obligation for a store to key at ref.
+func (fr *Frame) checkWrite(key string, ref Term, reach Term) {
+	vc := fr.vc
+	if vc.mods == nil || strings.HasPrefix(key, "G|") {
+		return
+	}
+	fr.oblige("writes", reach, vc.permitted(key, ref), "write to "+key+" is covered by the modifies clause (or goes to an object allocated by this call)")
+}
+
+// frameAssume: every location of component key that existed at function entry
+// and is outside the modifies clause has the same contents in `now` as in `before`.
+func (vc *FuncVC) frameAssume(key string, now, before Term) Term {
+	if !now.Sort.IsArr() {
+		return tTrue
+	}
+	name := fmt.Sprintf("r?%d", vc.sc.n)
+	vc.sc.n++
+	rv := Term{name, SInt}
+	conds := []Term{app(SBool, "<", app(SInt, "refroot", rv), vc.entryState.Alloc)}
+	if m := vc.mods[key]; m != nil {
+		if m.all {
+			return tTrue
+		}
+		for _, r := range m.refs {
+			conds = append(conds, mkNot(mkEq(rv, r)))
+		}
+	}
+	body := mkImplies(mkAnd(conds...), mkEq(mkSelect(now, rv), mkSelect(before, rv)))
+	return Term{fmt.Sprintf("(forall ((%s Int)) (! %s :pattern ((select %s %s))))", name, body.S, now.S, name), SBool}
 }
